@@ -918,6 +918,12 @@ def r15_lhs_per_row_per_axis(repo: Repo, rep):
         prm = kwarg(c, "params", 0)
         row = prm is not None and any(isinstance(a, ast.Assign) and any(dump(t) == dump(prm) for t in a.targets) and isinstance(a.value, (ast.IfExp, ast.Subscript)) and "params[" in dump(a.value)
                                       for a in ast.walk(sp.node))
+        if not row and prm is not None:
+            # the loop variable itself: `for row_params in <rows>` where <rows> yields params[i,] (a generator / list bound before the loop, possibly under an if / else)
+            for lp in ast.walk(sp.node):
+                if isinstance(lp, ast.For) and dump(lp.target) == dump(prm):
+                    srcs = [lp.iter] + [a.value for a in ast.walk(sp.node) if isinstance(lp.iter, ast.Name) and isinstance(a, ast.Assign) and any(dump(t) == lp.iter.id for t in a.targets)]
+                    row = row or any("params[" in dump(x) for x in srcs)
         rep.check(R, in_loop and not guarded and row, sp.site(c), sp.fq, "bounding_box(<this row's parameters>) evaluated in every pass of the per-row loop",
                   f"in loop: {in_loop}, under conditions {guarded}, parameters `{dump(prm) if prm is not None else None}`", f"box call loop={in_loop} guards={guarded}")
     pm2 = parent_map(cr.node)
